@@ -94,7 +94,8 @@ def text_case(rng):
 
 
 def fixture_case(rng):
-    k = rng.choice(("utmp", "utmp", "evtx", "journal"))
+    """-> (kind, file name, bytes, instants of the messages in print order or None when unknown)"""
+    k = rng.choice(("utmp", "utmp_generated", "evtx", "journal"))
     if k == "utmp":
         data = None
         for _ in range(10):
@@ -102,14 +103,38 @@ def fixture_case(rng):
             data = utmp_fixture(rel)
             if data:
                 break
-        name = os.path.basename(rel)
-    elif k == "evtx":
-        data = fixtures.load("pnp")
-        name = "p.evtx"
-    else:
-        data = fixtures.load("u22x3")
-        name = "j.journal"
-    return k, name, data
+        return "utmp", os.path.basename(rel), data, None
+    if k == "utmp_generated":
+        import c08
+        import layouts
+        lay = rng.choice(sorted(layouts.LAYOUTS))
+        raw, recs, _ = c08.gen_records(rng, lay, rng.randint(1, 8))
+        order = c08.expected_order(recs, None, None)
+        return "utmp", layouts.LAYOUTS[lay][6], raw, [r["sec"] * 1_000_000_000 + r["usec"] * 1000 for r in order]
+    if k == "evtx":
+        import c10
+        recs = sorted(c10.dump("pnp"), key=lambda r: (r[2], r[0]))
+        return "evtx", "p.evtx", fixtures.load("pnp"), [t for (_, _, t) in recs]
+    import c09
+    jn = rng.choice(("u22x3", "u22x3", "ubuntu16"))
+    return "journal", "j.journal", fixtures.load(jn), [e["rt"] * 1000 for e in c09.dump(jn)]
+
+
+def check_dates(stdout, dec, name, instants, mark):
+    """every line of message k starts with <file field><datetime of instant k in the requested format and zone>"""
+    parts = stdout.split(mark)
+    parts.pop()
+    if len(parts) != len(instants):
+        return "printed %d messages, the independent reader / generator knows %d" % (len(parts), len(instants))
+    ff = dec.file_field(name, [name])
+    for k, (p, t) in enumerate(zip(parts, instants)):
+        want = ff + dec.date_field(t)
+        for ln in p.lstrip(b"\x00").split(b"\n"):
+            if ln in (b"", b"\x00"):
+                continue
+            if not ln.startswith(want):
+                return "message %d: a line does not start with %r (its instant in the requested format and zone): %r" % (k, want, ln[:100])
+    return None
 
 
 DATE_RE = {
@@ -215,7 +240,7 @@ def run_case(seed, i, tier):
               "plan": plan.as_replay(res.trace).to_json(), "dec": dec.__dict__, "colour": colour}
         sample = {"argv": scn.argv, "TZ": tz_env, "sources": merge.describe(srcs)}
     else:
-        kind, name, data = fixture_case(rng)
+        kind, name, data, instants = fixture_case(rng)
         base = ["--tz-offset", "+00:00"]
         und_scn = core.Scenario([core.FileSpec(name, data, 1600000000)], ["--color", "never"] + base + [name], None, tz_env)
         und = core.execute(und_scn, plan)
@@ -228,8 +253,21 @@ def run_case(seed, i, tier):
             d = check_structural(und.stdout, got, dec, name, sepb, kind)
             if d:
                 vs.append(("decoration_not_removable_" + kind, d))
-        rp = {"kind": kind, "und": und_scn.to_json(), "dec_scn": dec_scn.to_json(), "plan": plan.as_replay(res.trace).to_json(),
-              "dec": dec.__dict__, "colour": colour, "name": name}
+        dates_scn = None
+        if not vs and instants is not None and dec.dt_off is not None:
+            # the datetime field must be the message's own instant (known from the generator / the independent readers)
+            margv = [a for a in argv if not a.startswith("--separator=")] + ["--separator=<#D#>"]
+            dates_scn = core.Scenario([core.FileSpec(name, data, 1600000000)], margv + base + [name], None, tz_env)
+            r3 = core.execute(dates_scn, plan)
+            cr.runs += 1
+            got3 = r3.stdout if colour == "never" else decor.strip_colour(r3.stdout)
+            d = check_dates(got3, dec, name, instants, b"<#D#>")
+            cr.probes["date_field_checked_against_known_instant_" + kind] += 1
+            if d:
+                vs.append(("date_field_differs_" + kind, d))
+        rp = {"kind": kind, "und": und_scn.to_json() if len(data) < 3_000_000 else None, "dec_scn": dec_scn.to_json() if len(data) < 3_000_000 else None,
+              "plan": plan.as_replay(res.trace).to_json(), "dec": dec.__dict__, "colour": colour, "name": name,
+              "dates_scn": dates_scn.to_json() if (dates_scn is not None and len(data) < 3_000_000) else None, "instants": instants}
         sample = {"argv": dec_scn.argv, "TZ": tz_env, "source": kind, "bytes": len(data)}
     tr = res.trace
     cr.runs += 1
@@ -267,12 +305,19 @@ def classes_of(rp):
         if not cl and got != decor.model_stdout(srcs, merge.model_merge(srcs), dec):
             cl.add("decorated_output_differs_from_model")
         return cl
+    if rp.get("und") is None:
+        raise RuntimeError("replay of an 8 MiB journal scenario is not inlined")
     und = core.execute(core.Scenario.from_json(rp["und"]), plan)
     res = core.execute(core.Scenario.from_json(rp["dec_scn"]), plan)
     got = res.stdout if rp["colour"] == "never" else decor.strip_colour(res.stdout)
     cl = set(c for (c, _) in mergecheck.evaluate(res, None, check_protocol=False))
     if not cl and check_structural(und.stdout, got, dec, rp["name"], decor.unescape_separator(dec.sep), rp["kind"]):
         cl.add("decoration_not_removable_" + rp["kind"])
+    if not cl and rp.get("dates_scn"):
+        r3 = core.execute(core.Scenario.from_json(rp["dates_scn"]), plan)
+        got3 = r3.stdout if rp["colour"] == "never" else decor.strip_colour(r3.stdout)
+        if check_dates(got3, dec, rp["name"], rp["instants"], b"<#D#>"):
+            cl.add("date_field_differs_" + rp["kind"])
     return cl
 
 
@@ -288,7 +333,7 @@ RULE = ("one case = one option tuple {-n|-p} x -w x {-u|-l|--prepend-tz|-d only}
         "file (one third, metamorphic strip oracle); non-trivial = every run; distinct = (options, scenario)")
 ASSUMPTIONS = ["the model's strftime covers a fixed token vocabulary (chrono semantics); formats outside it are not generated",
                "local zones are fixed-offset POSIX TZ strings, so -l does not depend on DST rules",
-               "for shipped utmp / evtx / journal inputs the datetime field is matched against the format, not against an independently known instant (C08/C09/C10 know the instants)"]
+               "for generated accounting files, the shipped evtx and the shipped journals the datetime field is compared with the instant known from the generator / the independent readers; for shipped accounting files it is matched against the format only"]
 
 
 def main(tier):
